@@ -2,6 +2,7 @@
 //! canonical result text.  Every binary reads a case file (one case per line, tab separated)
 //! and prints exactly one result line per case, in the same canonical text the OCaml driver
 //! of the extracted Coq model prints, so that the comparison is a line diff.
+pub mod debugparse;
 use std::io::{BufRead, Write};
 
 pub fn hex(bs: &[u8]) -> String {
